@@ -19,7 +19,7 @@ def _block_of(stmt):
 def derived_from_isunlimited(fn, name):
     for st in iter_stmts(fn.body):
         if isinstance(st, ast.Assign) and any(isinstance(t, ast.Name) and t.id == name for t in st.targets):
-            if 'isunlimited' in norm(st.value):
+            if _calls_isunlimited(st.value):
                 return True
     return False
 
@@ -146,9 +146,16 @@ def flag_propagated(fn, call, stmt):
     return None
 
 
+def _calls_isunlimited(e):
+    """the expression calls .isunlimited(); a bare reference to the bound method (always truthy) does not count"""
+    called = [n for n in ast.walk(e) if isinstance(n, ast.Call) and isinstance(n.func, ast.Attribute) and n.func.attr == 'isunlimited']
+    funcs = set(id(n.func) for n in called)
+    bare = [n for n in ast.walk(e) if isinstance(n, ast.Attribute) and n.attr == 'isunlimited' and id(n) not in funcs]
+    return bool(called) and not bare
+
+
 def _flag_expr_ok(fn, e):
-    t = norm(e)
-    if 'isunlimited' in t:
+    if _calls_isunlimited(e):
         return True
     if isinstance(e, ast.Name) and derived_from_isunlimited(fn, e.id):
         return True
